@@ -614,7 +614,10 @@ func (u *Upstream) readResultLoop(ctx context.Context) {
 		}
 		u.upstreamChunkResultChs = make(map[uint32]chan *message.UpstreamChunkResult)
 	}()
-	for v := range u.resCh {
+	u.mu.RLock()
+	resCh := u.resCh // replaced under the lock when the stream is resumed
+	u.mu.RUnlock()
+	for v := range resCh {
 		for _, vv := range v {
 			vv := vv
 
